@@ -3,6 +3,7 @@
   the memcomparable round trip needed for region keys.
 -/
 import ClientGoVerif.Model.ApiV2
+import ClientGoVerif.Proofs.CodecBytes
 namespace CGV.ApiV2.Lemmas
 open CGV CGV.Codec CGV.ApiV2
 
@@ -355,59 +356,41 @@ theorem not_prefix_end (ks : Keyspace) (h : ks.valid = true) : Bytes.isPrefix ks
     rw [this, cmp_refl] at h2
     cases h2
 
-/-! ## memcomparable round trip (needed for region keys) -/
+/-! ## memcomparable round trip and order (C19's theorems, `Proofs/CodecBytes`) -/
 
-theorem split9 (g : Bytes) (m : UInt8) (rest : Bytes) (hg : g.length = 8) :
-    ¬ (g ++ m :: rest).length < 9 ∧ (g ++ m :: rest).take 8 = g ∧ (g ++ m :: rest).getD 8 0 = m
-      ∧ (g ++ m :: rest).drop 9 = rest := by
-  match g, hg with
-  | [_, _, _, _, _, _, _, _], _ => simp
-
-theorem aux_full (g rest acc : Bytes) (hg : g.length = 8) :
-    decodeBytesAux false (g ++ UInt8.ofNat Gen.encMarker :: rest) acc = decodeBytesAux false rest (acc ++ g) := by
-  rw [decodeBytesAux]
-  obtain ⟨h1, h2, h3, h4⟩ := split9 g (UInt8.ofNat Gen.encMarker) rest hg
-  simp only [h1, dite_false, h2, h3, h4]
-  have h5 : (UInt8.ofNat Gen.encMarker).toNat = 255 := by simp [Gen.encMarker]
-  have h6 : Gen.encMarker - 255 = 0 := by simp [Gen.encMarker]
-  have h7 : List.take 8 g = g := by rw [← hg]; exact List.take_length
-  simp [h5, h6, h7]
-
-theorem aux_last (d sfx acc : Bytes) (hd : d.length < 8) :
-    decodeBytesAux false (d ++ List.replicate (8 - d.length) (UInt8.ofNat Gen.encPad)
-      ++ [UInt8.ofNat (Gen.encMarker - (8 - d.length))] ++ sfx) acc = .ok (acc ++ d, sfx) := by
-  have hlen : (d ++ List.replicate (8 - d.length) (UInt8.ofNat Gen.encPad)).length = 8 := by simp; omega
-  have hb : d ++ List.replicate (8 - d.length) (UInt8.ofNat Gen.encPad)
-      ++ [UInt8.ofNat (Gen.encMarker - (8 - d.length))] ++ sfx =
-      (d ++ List.replicate (8 - d.length) (UInt8.ofNat Gen.encPad)) ++ UInt8.ofNat (Gen.encMarker - (8 - d.length)) :: sfx := by
-    simp [List.append_assoc]
-  rw [hb, decodeBytesAux]
-  obtain ⟨h1, h2, h3, h4⟩ := split9 _ (UInt8.ofNat (Gen.encMarker - (8 - d.length))) sfx hlen
-  have h5 : (UInt8.ofNat (Gen.encMarker - (8 - d.length))).toNat = 255 - (8 - d.length) := by
-    simp [Gen.encMarker]; omega
-  simp only [h1, dite_false, h2, h3, h4, h5]
-  have h6 : Gen.encMarker - (255 - (8 - d.length)) = 8 - d.length := by simp [Gen.encMarker]; omega
-  rw [h6]
-  have h7 : ¬ (8 - d.length > 8) := by omega
-  have h8 : 8 - d.length ≠ 0 := by omega
-  have h9 : 8 - (8 - d.length) = d.length := by omega
-  simp [h7, h8, h9]
-
-theorem decode_encode_bytes_aux (data sfx acc : Bytes) :
-    decodeBytesAux false (encodeBytes data ++ sfx) acc = .ok (acc ++ data, sfx) := by
-  fun_induction encodeBytes data generalizing acc with
-  | case1 data h ih =>
-    have hg : (data.take 8).length = 8 := by simp; omega
-    rw [List.append_assoc, List.append_assoc, List.singleton_append, aux_full _ _ _ hg, ih]
-    simp [List.append_assoc]
-  | case2 data h =>
-    exact aux_last data sfx acc (by omega)
-
-theorem decode_encode_bytes (data : Bytes) : decodeBytes (encodeBytes data) = .ok (data, []) := by
-  have := decode_encode_bytes_aux data [] []
-  simpa [decodeBytes] using this
+theorem decode_encode_bytes_nil (data : Bytes) : decodeBytes (encodeBytes data) = .ok (data, []) := by
+  have := CGV.Codec.decode_encode_bytes data []
+  simpa using this
 
 theorem encodeBytes_ne_nil (data : Bytes) : encodeBytes data ≠ [] := by
   rw [encodeBytes]; split <;> simp
+
+/-! ## neighbouring keyspaces -/
+
+theorem eq_of_num_eq {a b : Bytes} (hl : a.length = b.length) (h : fromBE 0 a = fromBE 0 b) : a = b := by
+  apply cmp_eq_iff.mp
+  rw [cmp_num a b 0 hl, h]
+  simp
+
+/-- the end of a keyspace is the prefix of the next keyspace id of the same mode -/
+theorem endKey_eq_next_pfx (ks : Keyspace) (h : ks.id < Gen.maxKeyspaceID) :
+    ks.endKey = (Keyspace.mk ks.mode (ks.id + 1)).pfx := by
+  have hlt : ks.id < 16777215 := by simpa [Gen.maxKeyspaceID] using h
+  have hm : Gen.maxKeyspaceID = 16777215 := rfl
+  have hv : ks.valid = true := by
+    simp only [Keyspace.valid, hm, decide_eq_true_eq]; omega
+  have hv' : (Keyspace.mk ks.mode (ks.id + 1)).valid = true := by
+    simp only [Keyspace.valid, hm, decide_eq_true_eq]; omega
+  apply eq_of_num_eq (by rw [endKey_length, pfx_length])
+  rw [num_endKey ks hv]
+  have h1 := pfxVal_eq ks hv
+  have h2 := pfxVal_eq _ hv'
+  have h3 : fromBE 0 (Keyspace.mk ks.mode (ks.id + 1)).pfx = (Keyspace.mk ks.mode (ks.id + 1)).pfxVal := rfl
+  rw [h3, h2, h1]
+  simp only
+  omega
+
+theorem pfx_inj {a b : Keyspace} (ha : a.valid = true) (hb : b.valid = true) (h : a.pfx = b.pfx) : a = b :=
+  pfxVal_inj ha hb (by simp [Keyspace.pfxVal, h])
 
 end CGV.ApiV2.Lemmas
